@@ -3057,6 +3057,7 @@ func runEXPANDALL(c *Ctx) {
 		c.Undecided(step, P.Pos(step.Pos()), "popped items not found", "the diff step does not pop one item per side")
 		return
 	}
+	expandWholeNodes(c, S, step, bodies[0].stacks)
 	for _, sb := range bodies {
 		for _, sd := range sb.sides() {
 			blocked := map[*ssa.BasicBlock]bool{}
@@ -4005,5 +4006,300 @@ func diffReadsEntryVsLink(c *Ctx, S *sidesInfo, step *ssa.Function) {
 	}
 	if n == 0 {
 		c.Undecided(step, P.Pos(step.Pos()), "no entry-vs-link load", "the rule found no node load in a region where one item is an entry and the other a link")
+	}
+}
+
+// ---- EXPANDALL: a loaded node is expanded as a whole ---------------------------------
+
+// sdNodeLinkElem: v is X.Link[i] for the node X; constIdx is i when constant (else -1).
+func sdNodeLinkElem(v ssa.Value) (node ssa.Value, constIdx int64, ok bool) {
+	u, isU := ir.ResolveCell(ir.Strip(v)).(*ssa.UnOp)
+	if !isU || u.Op != token.MUL {
+		return nil, 0, false
+	}
+	ia, isIA := u.X.(*ssa.IndexAddr)
+	if !isIA || !sdPathThroughNodeField(ia.X, "Link") {
+		return nil, 0, false
+	}
+	root := sdAccessRoot(ia.X)
+	if !sdIsNodePtr(root.Type()) {
+		return nil, 0, false
+	}
+	if k, isK := ir.ConstInt(ia.Index); isK {
+		return root, k, true
+	}
+	return root, -1, true
+}
+
+func sdBlockInCycle(b *ssa.BasicBlock) bool {
+	for _, s := range b.Succs {
+		if ir.CanReach(s, b) {
+			return true
+		}
+	}
+	return false
+}
+
+// sdFuncReadsParamField: fn reads the exported Node field `name` of its parameter idx.
+func sdFuncReadsParamField(fn *ssa.Function, idx int, name string) bool {
+	if idx < 0 || idx >= len(fn.Params) {
+		return false
+	}
+	p := fn.Params[idx]
+	for _, b := range fn.Blocks {
+		for _, ins := range b.Instrs {
+			if fa, ok := ins.(*ssa.FieldAddr); ok && ir.FieldName(fa.X.Type(), fa.Field) == name && ir.IsPtrToNamed(fa.X.Type(), "Node") && sdAccessRoot(fa) == ssa.Value(p) {
+				return true
+			}
+		}
+	}
+	return false
+}
+
+// wholeExpander: fn pushes the whole of its node parameter idx: in a loop it
+// pushes the node's links (Link[i], i not constant) and its entries (a call
+// that receives the node, or a Key element of it, per iteration) — the shape
+// of pushNode; or (one level) it hands the parameter to such a function
+// before each of its successful returns.
+func (S *sidesInfo) wholeExpander(fn *ssa.Function, idx int, depth int) bool {
+	if fn == nil || idx < 0 || idx >= len(fn.Params) || !sdIsNodePtr(fn.Params[idx].Type()) || !S.slice[fn] {
+		return false
+	}
+	p := ssa.Value(fn.Params[idx])
+	links, entries := false, false
+	for _, ci := range CallsOf(fn) {
+		callee := ir.Callee(ci.Common())
+		if callee == nil || !S.slice[callee] || !sdBlockInCycle(ci.Block()) {
+			continue
+		}
+		for ai, a := range ci.Common().Args {
+			if n, k, ok := sdNodeLinkElem(a); ok && n == p && k < 0 {
+				links = true
+			}
+			if ir.ResolveCell(ir.Strip(a)) == p && callee != fn && sdFuncReadsParamField(callee, ai, "Key") {
+				entries = true
+			}
+			if sdPathThroughNodeField(a, "Key") && sdAccessRoot(a) == p {
+				entries = true
+			}
+		}
+	}
+	if links && entries {
+		return true
+	}
+	if depth >= 1 {
+		return false
+	}
+	ei := ir.ErrorResultIndex(fn.Signature)
+	for _, ci := range CallsOf(fn) {
+		callee := ir.Callee(ci.Common())
+		if callee == nil || callee == fn {
+			continue
+		}
+		for ai, a := range ci.Common().Args {
+			if ir.ResolveCell(ir.Strip(a)) != p || !S.wholeExpander(callee, ai, depth+1) {
+				continue
+			}
+			all := true
+			for _, r := range ir.Returns(fn) {
+				if ei >= 0 && !ir.IsNilConst(r.Results[ei]) {
+					continue
+				}
+				if !ir.MustPass(r, func(ins ssa.Instruction) bool { return ins == ssa.Instruction(ci) }) {
+					all = false
+				}
+			}
+			if all {
+				return true
+			}
+		}
+	}
+	return false
+}
+
+// expandWholeNodes: in the step and its helpers, a node obtained by loading an
+// item's link is — on every path to a successful return — handed as a whole to
+// a function that pushes all its entries and links, unless the item it was
+// loaded for is pushed back unchanged, the node is a pass-through node (a
+// dominating len(node.Link) == 1) whose only link is pushed, or the node is
+// returned to the caller (which is then held to the same).
+func expandWholeNodes(c *Ctx, S *sidesInfo, step *ssa.Function, stacks map[*sdSlot]bool) {
+	P := c.P
+	notified, prim := c.P.MastFunc("(*Mast).alreadyNotified"), c.P.MastFunc("(*Mast).load")
+	if prim == nil {
+		c.AnchorMissing("function (*Mast).load")
+		return
+	}
+	var stackT types.Type
+	for sl := range stacks {
+		stackT = sl.field.Type()
+	}
+	isStackArg := func(a ssa.Value) bool {
+		if sl := S.slotRef(a); sl != nil && stacks[sl] {
+			return true
+		}
+		if pt, ok := a.Type().Underlying().(*types.Pointer); ok && stackT != nil && types.Identical(pt.Elem(), stackT) {
+			return true
+		}
+		return false
+	}
+	scope := map[*ssa.Function]bool{step: true}
+	work := []*ssa.Function{step}
+	for len(work) > 0 {
+		fn := work[len(work)-1]
+		work = work[:len(work)-1]
+		for _, ci := range CallsOf(fn) {
+			cal := ir.Callee(ci.Common())
+			if cal == nil || !S.slice[cal] || cal == prim || cal == notified || scope[cal] {
+				continue
+			}
+			scope[cal] = true
+			work = append(work, cal)
+		}
+	}
+	lenIsOne := func(b *ssa.BasicBlock, node ssa.Value) bool {
+		for _, f := range ir.FactsAt(b) {
+			bin, ok := f.Cond.(*ssa.BinOp)
+			if !ok || !((bin.Op == token.EQL && f.Truth) || (bin.Op == token.NEQ && !f.Truth)) {
+				continue
+			}
+			x, y := bin.X, bin.Y
+			if _, isK := ir.ConstInt(x); isK {
+				x, y = y, x
+			}
+			if k, isK := ir.ConstInt(y); !isK || k != 1 {
+				continue
+			}
+			call, ok := x.(*ssa.Call)
+			if !ok {
+				continue
+			}
+			if bi, ok := call.Call.Value.(*ssa.Builtin); ok && bi.Name() == "len" && sdPathThroughNodeField(call.Call.Args[0], "Link") && sdAccessRoot(call.Call.Args[0]) == node {
+				return true
+			}
+		}
+		return false
+	}
+	n := 0
+	for _, fn := range S.fns {
+		if !scope[fn] {
+			continue
+		}
+		for _, ci := range CallsOf(fn) {
+			call, ok := ci.(*ssa.Call)
+			cal := ir.Callee(ci.Common())
+			if !ok || cal == nil || !(cal == prim || (scope[cal] && c.Facts.MayLoad[cal])) {
+				continue
+			}
+			// the node value
+			var X ssa.Value
+			if sdIsNodePtr(call.Type()) {
+				X = call
+			} else if call.Referrers() != nil {
+				for _, r := range *call.Referrers() {
+					if ex, isEx := r.(*ssa.Extract); isEx && sdIsNodePtr(ex.Type()) {
+						X = ex
+					}
+				}
+			}
+			if X == nil {
+				continue
+			}
+			n++
+			// the item the node was loaded for (if the link is an item's)
+			var item ssa.Value
+			for _, a := range call.Call.Args {
+				if it, isLink := S.itemLink(a); isLink {
+					item = it
+				}
+			}
+			discharges := func(ins ssa.Instruction) bool {
+				if r, isRet := ins.(*ssa.Return); isRet {
+					for _, op := range r.Results {
+						if ir.ResolveCell(ir.Strip(op)) == X {
+							return true // handed to the caller
+						}
+					}
+					return false
+				}
+				pc, isCall := ins.(ssa.CallInstruction)
+				if !isCall {
+					return false
+				}
+				callee := ir.Callee(pc.Common())
+				if callee == nil || !S.slice[callee] {
+					return false
+				}
+				hasStack := false
+				for _, a := range pc.Common().Args {
+					if isStackArg(a) {
+						hasStack = true
+					}
+				}
+				for ai, a := range pc.Common().Args {
+					switch {
+					case ir.ResolveCell(ir.Strip(a)) == X && S.wholeExpander(callee, ai, 0):
+						return true
+					case item != nil && hasStack && ir.ResolveCell(ir.Strip(a)) == item:
+						if ml, _ := sdMayLoad(c, pc); !ml {
+							return true // the item goes back unchanged
+						}
+					}
+					if nd, k, isEl := sdNodeLinkElem(a); isEl && nd == X && k == 0 && hasStack && lenIsOne(pc.Block(), X) {
+						return true // a pass-through node: its only link is the whole node
+					}
+				}
+				return false
+			}
+			blocked := map[*ssa.BasicBlock]bool{}
+			for _, b := range fn.Blocks {
+				for _, ins := range b.Instrs {
+					if discharges(ins) {
+						blocked[b] = true
+					}
+				}
+			}
+			pos := P.InstrPos(call)
+			what := fmt.Sprintf("node loaded by %s(%s) in %s", cal.Name(), sdDesc(call.Call.Args[len(call.Call.Args)-1]), ir.FuncName(fn))
+			// in the load's own block only what follows the load counts
+			blocked[call.Block()] = false
+			seenLoad := false
+			for _, ins := range call.Block().Instrs {
+				if ins == ssa.Instruction(call) {
+					seenLoad = true
+				} else if seenLoad && discharges(ins) {
+					blocked[call.Block()] = true
+				}
+			}
+			if blocked[call.Block()] {
+				c.OK(pos, what, "expanded as a whole (or handed on) right away", false)
+				continue
+			}
+			reach := map[*ssa.BasicBlock]bool{}
+			for _, succ := range call.Block().Succs {
+				if blocked[succ] {
+					continue
+				}
+				for b := range ir.ReachableFrom(succ, func(_, to *ssa.BasicBlock) bool { return blocked[to] }) {
+					reach[b] = true
+				}
+			}
+			bad := false
+			for _, r := range ir.Returns(fn) {
+				if !reach[r.Block()] || !sdMaySucceed(S, fn, r) {
+					continue
+				}
+				c.Violation(fn, pos, "loaded node not expanded as a whole",
+					fmt.Sprintf("%s loads a node (%s) and can return successfully (at "+P.InstrPos(r)+") without handing it to the function that pushes all its entries and links, without pushing the item back, and without the node being a known pass-through node whose only link is pushed: entries and subtrees of that node silently drop out of the diff", fn.Name(), sdDesc(call.Call.Args[len(call.Call.Args)-1])))
+				bad = true
+				break
+			}
+			if !bad {
+				c.OK(pos, what, "on every successful path expanded as a whole, pushed back as an item, pushed as the only link of a pass-through node, or returned", false)
+			}
+		}
+	}
+	if n == 0 {
+		c.Undecided(step, P.Pos(step.Pos()), "no node load in the step", "the rule found no load of a node in the diff step or its helpers")
 	}
 }
